@@ -467,11 +467,16 @@ func (s *Sim) setupPhase() {
 			total.AddTo(n.Cap)
 		}
 		used := Res{}
+		// (a maximum on the hog's queue path would stop it short: the other applications help filling up)
 		for i := 0; i < 40 && used["vcore"] < total["vcore"] && used["memory"] < total["memory"]; i++ {
 			s.nAsk++
 			r := Res{"vcore": int64(s.rng.Range(1, 4)), "memory": int64(s.rng.Range(1, 4))}
 			used.AddTo(r)
-			a := AskArgs{Key: fmt.Sprintf("%s-k%d", hog, s.nAsk), App: hog, Res: r, PreemptSelf: true, Priority: int32(s.rng.Range(-1, 2))}
+			who := hog
+			if i%3 == 2 {
+				who = apps[(i/3)%len(apps)]
+			}
+			a := AskArgs{Key: fmt.Sprintf("%s-k%d", who, s.nAsk), App: who, Res: r, PreemptSelf: true, Priority: int32(s.rng.Range(-1, 2))}
 			s.doStep(Op{Kind: "ask", Asks: []AskArgs{a}})
 		}
 		for i := 0; i < 30; i++ {
@@ -480,12 +485,86 @@ func (s *Sim) setupPhase() {
 				break
 			}
 		}
+		// directed: somebody with a guarantee of its own, in another queue, now wants in and may preempt
+		if s.rng.Bool(0.75) {
+			hogQ := s.appQueue(hog)
+			var cands []string
+			guarOf := map[string]Res{}
+			for _, leaf := range s.conf.Leaves() {
+				if leaf == hogQ {
+					continue
+				}
+				// the tightest guarantee on the path, on the types pods are made of
+				g := Res{}
+				for _, qp := range ancestors(leaf) {
+					if q := s.conf.Find(qp); q != nil {
+						for _, t := range []string{"vcore", "memory"} {
+							if v, ok := q.Guar[t]; ok && v > 0 && (g[t] == 0 || v < g[t]) {
+								g[t] = v
+							}
+						}
+					}
+				}
+				if len(g) > 0 {
+					cands = append(cands, leaf)
+					guarOf[leaf] = g
+				}
+			}
+			if len(cands) > 0 && len(s.conf.Rules) == 0 {
+				leaf := pick(s.rng, cands)
+				s.nApp++
+				u := pick(s.rng, s.world.Users)
+				id := fmt.Sprintf("app-%d", s.nApp)
+				s.doStep(Op{Kind: "app_add", App: &AppArgs{ID: id, Queue: leaf, User: u.Name, Groups: u.Groups, Tags: map[string]string{}}})
+				n := s.rng.Range(1, 3)
+				for i := 0; i < n; i++ {
+					s.nAsk++
+					// mostly inside what the queue is guaranteed (that is what entitles it to preempt)
+					r := Res{}
+					for _, t := range sortedKeys(guarOf[leaf]) {
+						hi := int(guarOf[leaf][t])
+						if hi > 4 {
+							hi = 4
+						}
+						r[t] = int64(s.rng.Range(1, hi))
+					}
+					if s.rng.Bool(0.2) {
+						r["vcore"] += int64(s.rng.Range(1, 3))
+					}
+					s.doStep(Op{Kind: "ask", Asks: []AskArgs{{Key: fmt.Sprintf("%s-k%d", id, s.nAsk), App: id, Res: r, PreemptSelf: true, PreemptOther: true, Priority: int32(s.rng.Range(0, 4))}}})
+				}
+				s.doStep(Op{Kind: "sched"})
+				s.doStep(Op{Kind: "advance", Ms: int64(s.rng.Range(30500, 36000)), Quantum: 5000})
+				for i := 0; i < 3; i++ {
+					s.doStep(Op{Kind: "sched"})
+				}
+				s.probe("directed_preemptor")
+			}
+		}
 	}
 }
 
 // drainPhase: faults stop, every owed confirmation is delivered, everything is released and removed,
 // time passes; afterwards all books must be exactly zero.
 func (s *Sim) drainPhase() {
+	if s.pf.Preemption {
+		// reach measure: why the asks that are still pending were not helped by preemption (allocation log of the core)
+		if pc := s.sc.Scheduler.GetClusterContext().GetPartition(s.part); pc != nil {
+			for _, app := range pc.GetApplications() {
+				for _, ask := range app.GetAllRequests() {
+					if ask.IsAllocated() || !ask.IsAllowPreemptOther() {
+						continue
+					}
+					for _, e := range ask.GetAllocationLog() {
+						s.probe("asklog:" + e.Message)
+						if os.Getenv("VERIF_TRACE") != "" {
+							fmt.Printf("    asklog %s %s in %s: %dx %s\n", ask.GetAllocationKey(), ask.GetAllocatedResource(), app.GetQueuePath(), e.Count, e.Message)
+						}
+					}
+				}
+			}
+		}
+	}
 	s.cfg.Faults = map[string]bool{}
 	s.shim.mu.Lock()
 	s.shim.PredFlapP = 0
